@@ -482,6 +482,13 @@ def check_C06():
         s = sessions.get(o["sid"], {})
         cls = "crash/%s/%s/%s/%s" % (o["call"], o["wkind"], "torn" if o["torn"] else "boundary",
                                      "refused-but-damaged" if o["reopen"] == "err" else "resumed-wrongly")
+        # what went wrong, and in which history: part of the class, so that a recorded finding covers exactly that
+        # failure of that history and nothing else
+        if o["reopen"] != "err":
+            why = "phantom-block" if o.get("unknown", 0) > 0 else ("lost-block" if not o.get("getok", True) else
+                                                                   ("continuation-malformed" if not o.get("contok", True) else "other"))
+            cls += "/%s/%s/%s/%s" % (why, s.get("kind", "?"), (s.get("shape") or {}).get("name", "?"),
+                                     "+".join(k for k in ("zero", "ident", "v1", "dup", "whole") if (s.get("o") or {}).get(k)) or "default-options")
         viols.append({"class": cls,
                       "detail": "session %s %s opts %s, cut at op %d byte %d (%s/%s): reopen %s; acked %s keys %s unknown %d getok %s contok %s %s" % (
                           s.get("kind"), json.dumps(s.get("shape")), json.dumps(s.get("o")), o["i"], o["k"], o["call"], o["wkind"], o["reopen"],
